@@ -1515,5 +1515,303 @@ theorem cd_encF_cnt (d : Nat) : ∀ (fs : List Fmt) (tsh : List Nat) (ish : Opti
       · exact hKc F hF
 
 
+/-! ### depth-first walk through the rank lists -/
+
+theorem cd_encKids_fibs_len {α : Type} (k : Nat) (enc1 : Cnt → α → Res)
+    (hlen : ∀ cnt x, (enc1 cnt x).fibs.length = k) (xs : List α) (cnt : Cnt) (cum : Nat) :
+    (encKids k enc1 xs cnt cum).fibs.length = k := by
+  induction xs generalizing cnt cum with
+  | nil => simp [encKids]
+  | cons x xs ih => simp only [encKids, length_zipApp, hlen cnt x, ih, Nat.min_self]
+
+theorem cd_encF_fibs_len (d : Nat) : ∀ (fs : List Fmt) (tsh : List Nat) (ish : Option (List Nat)) (pidx : Nat) (cnt : Cnt)
+    (a : Tree Int Int (d + 1)), (encF d fs tsh ish pidx cnt a).fibs.length = d + 1 := by
+  induction d with
+  | zero => intro fs tsh ish pidx cnt a; simp [encF]
+  | succ d ih =>
+    intro fs tsh ish pidx cnt a
+    simp only [encF, List.length_cons]
+    exact congrArg (· + 1) (cd_encKids_fibs_len (d + 1) _ (fun c x => ih _ _ _ _ c x) _ _ _)
+
+/-- the fiber counters are the lengths of the rank lists built so far -/
+def cd_lenOK : Cnt → List (List EFib) → Prop
+  | _, [] => True
+  | cnt, p :: ps => (cnt.headD (0, 0)).1 = p.length ∧ cd_lenOK cnt.tail ps
+
+theorem cd_encKids_lenOK {α : Type} (k : Nat) (enc1 : Cnt → α → Res)
+    (hlen : ∀ cnt x, (enc1 cnt x).fibs.length = k)
+    (h1 : ∀ cnt x (pre : List (List EFib)), pre.length = k → cd_lenOK cnt pre →
+        cd_lenOK (enc1 cnt x).cnt (zipApp pre (enc1 cnt x).fibs))
+    (xs : List α) (cnt : Cnt) (cum : Nat) (pre : List (List EFib)) (hpre : pre.length = k)
+    (hok : cd_lenOK cnt pre) :
+    cd_lenOK (encKids k enc1 xs cnt cum).cnt (zipApp pre (encKids k enc1 xs cnt cum).fibs) := by
+  induction xs generalizing cnt cum pre with
+  | nil =>
+    simp only [encKids]
+    rw [zipApp_replicate_nil_right k pre hpre]; exact hok
+  | cons x xs ih =>
+    simp only [encKids]
+    rw [← zipApp_assoc]
+    exact ih _ _ _ (by rw [length_zipApp, hpre, hlen, Nat.min_self]) (h1 cnt x pre hpre hok)
+
+theorem cd_encF_lenOK (d : Nat) : ∀ (fs : List Fmt) (tsh : List Nat) (ish : Option (List Nat)) (pidx : Nat) (cnt : Cnt)
+    (a : Tree Int Int (d + 1)) (pre : List (List EFib)), pre.length = d + 1 → cd_lenOK cnt pre →
+    cd_lenOK (encF d fs tsh ish pidx cnt a).cnt (zipApp pre (encF d fs tsh ish pidx cnt a).fibs) := by
+  induction d with
+  | zero =>
+    intro fs tsh ish pidx cnt a pre hpre hok
+    match pre, hpre with
+    | [p0], _ =>
+    simp only [encF, zipApp_cons, zipApp_nil_left]
+    refine ⟨?_, trivial⟩
+    simp only [List.headD_cons, List.length_append, List.length_singleton]
+    rw [hok.1]
+  | succ d ih =>
+    intro fs tsh ish pidx cnt a pre hpre hok
+    match pre, hpre with
+    | p0 :: pre', hpre' =>
+    have hpre'' : pre'.length = d + 1 := by simpa using hpre'
+    simp only [encF, zipApp_cons]
+    refine ⟨?_, ?_⟩
+    · simp only [List.headD_cons, List.length_append, List.length_singleton]
+      rw [hok.1]
+    · simp only [List.tail_cons]
+      exact cd_encKids_lenOK (d + 1) _ (fun c x => cd_encF_fibs_len d _ _ _ _ c x)
+        (fun c x pr hp ho => ih _ _ _ _ c x pr hp ho) _ _ _ pre' hpre'' hok.2
+
+
+theorem cd_walk_kids {α : Type} (k : Nat) (enc1 : Cnt → α → Res) (cont1 : α → Content) (Q : α → Prop)
+    (I : Cnt → Prop)
+    (hlen : ∀ cnt x, (enc1 cnt x).fibs.length = k)
+    (hI : ∀ cnt x, I cnt → I (enc1 cnt x).cnt ∧
+        ((enc1 cnt x).cnt.headD (0, 0)).1 = (cnt.headD (0, 0)).1 + 1)
+    (hlo : ∀ cnt x (pre : List (List EFib)), pre.length = k → cd_lenOK cnt pre →
+        cd_lenOK (enc1 cnt x).cnt (zipApp pre (enc1 cnt x).fibs))
+    (hw : ∀ x, Q x → ∀ (cnt : Cnt) (pre post : List (List EFib)), pre.length = k → post.length = k →
+        cd_lenOK cnt pre → I cnt →
+        walkM (zipApp pre (zipApp (enc1 cnt x).fibs post)) (cnt.headD (0, 0)).1 = cont1 x)
+    (xs : List α) (hQ : ∀ x ∈ xs, Q x) (cnt : Cnt) (cum : Nat) (pre post : List (List EFib))
+    (hpre : pre.length = k) (hpost : post.length = k) (hok : cd_lenOK cnt pre) (hIc : I cnt) :
+    ∀ (j : Nat) (hj : j < xs.length),
+      walkM (zipApp pre (zipApp (encKids k enc1 xs cnt cum).fibs post)) ((cnt.headD (0, 0)).1 + j)
+        = cont1 (xs[j]) := by
+  induction xs generalizing cnt cum pre with
+  | nil => intro j hj; simp at hj
+  | cons x xs ih =>
+    intro j hj
+    have hKl := cd_encKids_fibs_len k enc1 hlen xs (enc1 cnt x).cnt (cum + (enc1 cnt x).occ)
+    simp only [encKids]
+    cases j with
+    | zero =>
+      rw [zipApp_assoc]
+      simp only [Nat.add_zero, List.getElem_cons_zero]
+      exact hw x (hQ x (List.mem_cons_self ..)) cnt pre _ hpre
+        (by rw [length_zipApp, hKl, hpost, Nat.min_self]) hok hIc
+    | succ j =>
+      rw [zipApp_assoc, ← zipApp_assoc pre]
+      have hI' := hI cnt x hIc
+      have := ih (fun y hy => hQ y (List.mem_cons_of_mem _ hy)) (enc1 cnt x).cnt (cum + (enc1 cnt x).occ)
+        (zipApp pre (enc1 cnt x).fibs) (by rw [length_zipApp, hpre, hlen, Nat.min_self])
+        (hlo cnt x pre hpre hok) hI'.1 j (by simpa using hj)
+      rw [hI'.2] at this
+      simp only [List.getElem_cons_succ]
+      rw [← this]
+      congr 1
+      omega
+
+theorem cd_zipIdx_flatMap {α : Type} (els : List (Int × α)) (W : Nat → Content) (cont1 : α → Content) (k0 : Nat)
+    (hW : ∀ (j : Nat) (hj : j < els.length), W (k0 + j) = cont1 (els[j]).2) :
+    ((els.map (·.1)).zipIdx k0).flatMap (fun e => (W e.2).map (pre e.1))
+      = els.flatMap (fun e => (cont1 e.2).map (pre e.1)) := by
+  induction els generalizing k0 with
+  | nil => rfl
+  | cons e els ih =>
+    simp only [List.map_cons, List.zipIdx_cons, List.flatMap_cons]
+    have h0 := hW 0 (by simp)
+    simp only [Nat.add_zero, List.getElem_cons_zero] at h0
+    rw [h0, ih (k0 + 1)]
+    intro j hj
+    have := hW (j + 1) (by simpa using hj)
+    simp only [List.getElem_cons_succ] at this
+    rw [← this]; congr 1; omega
+
+theorem cd_zipIdx_vals (front els : List (Int × Int)) :
+    ((els.map (·.1)).zipIdx front.length).map
+        (fun e => ((some e.1 : Option Int), (some (((front ++ els).map (·.2)).getD e.2 0) : Option Int)))
+      = els.map (fun e => (some e.1, some e.2)) := by
+  induction els generalizing front with
+  | nil => rfl
+  | cons e els ih =>
+    simp only [List.map_cons, List.zipIdx_cons]
+    have := ih (front ++ [e])
+    simp only [List.length_append, List.length_singleton, List.append_assoc, List.singleton_append] at this
+    rw [this]
+    congr 1
+    simp [List.getD_eq_getElem?_getD]
+
+theorem cd_getD_mid (p0 q0 : List EFib) (F : EFib) : (p0 ++ ([F] ++ q0)).getD p0.length default = F := by
+  simp [List.getD_eq_getElem?_getD]
+
+
+theorem cd_walk_encF_zero (fs : List Fmt) (tsh : List Nat) (ish : Option (List Nat)) (pidx : Nat) (cnt : Cnt)
+    (a : List (Int × Int)) (pre post : List (List EFib))
+    (hfs : fs.length = 1) (hwf : wfB (κ := Int) (ν := Int) 1 a = true) (hin : inEff 1 fs tsh ish a = true)
+    (hok : cd_lenOK cnt pre) (hpre : pre.length = 1) (hpost : post.length = 1) :
+    walkM (zipApp pre (zipApp (encF 0 fs tsh ish pidx cnt a).fibs post)) (cnt.headD (0, 0)).1
+      = content (κ := Int) (ν := Int) (0 : Int) 1 a := by
+  match fs, hfs with
+  | [f], _ =>
+  match pre, hpre with
+  | [p0], _ =>
+  match post, hpost with
+  | [q0], _ =>
+  have hfacts := encF_fibs_facts_zero [f] tsh ish pidx cnt a rfl hwf hin
+  have hwf2 : (sortedB a && a.all (fun e => wfB (κ := Int) (ν := Int) 0 e.2)) = true := hwf
+  rw [Bool.and_eq_true] at hwf2
+  have hs : Sorted a := (sortedB_iff _).1 hwf2.1
+  have hin2 : (a.all fun e => decide (0 ≤ e.1) && decide (e.1 < ((dimOf tsh ish : Nat) : Int)) && true) = true := hin
+  rw [List.all_eq_true] at hin2
+  have hin' : ∀ e ∈ a, 0 ≤ e.1 ∧ e.1 < ((dimOf tsh ish : Nat) : Int) := by
+    intro e he
+    have := hin2 e he
+    simp only [Bool.and_eq_true, decide_eq_true_eq] at this
+    exact ⟨this.1.1, this.1.2⟩
+  obtain ⟨els, hels⟩ : ∃ els, els = elemsOf f (dimOf tsh ish) (0 : Int) (fun v => decide (v = 0)) a := ⟨_, rfl⟩
+  obtain ⟨F, hfibs, hnext, hv, hc⟩ : ∃ F : EFib, (encF 0 [f] tsh ish pidx cnt a).fibs = [[F]] ∧ F.next = none ∧
+      F.vals = els.map (·.2) ∧ F.ecoords = els.map (·.1) :=
+    ⟨_, encF_zero_fibs f [] tsh ish pidx cnt a, rfl, by rw [hels], by rw [hels]⟩
+  rw [hfibs] at hfacts ⊢
+  have hF : FibFacts F := hfacts F (by simp)
+  have hse : F.scanElems = F.elemsSpec := scanElems_facts F hF (by intro _ h; rw [hnext] at h; cases h)
+  simp only [zipApp_cons, zipApp_nil_left, walkM]
+  rw [hok.1, cd_getD_mid, hse]
+  simp only [EFib.elemsSpec, hnext]
+  rw [hv, hc]
+  have hz := cd_zipIdx_vals [] els
+  simp only [List.length_nil, List.nil_append] at hz
+  rw [hz, List.flatMap_map]
+  have hleaf : (els.flatMap fun e => if e.2 = 0 then [] else [([e.1], e.2)])
+      = els.flatMap (fun e => (content (κ := Int) (ν := Int) (0 : Int) 0 e.2).map (Codec.pre e.1)) := by
+    congr 1
+    funext e
+    by_cases h : e.2 = 0 <;> simp [content, h, Codec.pre]
+  simp only []
+  rw [hleaf, hels]
+  have hd : ∀ c : Int, (content (κ := Int) (ν := Int) (0 : Int) 0 (0 : Int)).map (Codec.pre c) = [] := by
+    intro c; simp [content]
+  have hE : ∀ (c : Int) (x : Int), (fun v : Int => decide (v = 0)) x = true →
+      (content (κ := Int) (ν := Int) (0 : Int) 0 x).map (Codec.pre c) = [] := by
+    intro c x hx
+    have : x = 0 := by simpa using hx
+    subst this; exact hd c
+  rw [flatMap_elemsOf (fun c (v : Int) => (content (κ := Int) (ν := Int) (0 : Int) 0 v).map (Codec.pre c)) f (dimOf tsh ish)
+        (0 : Int) _ hd hE a hs hin']
+  rfl
+
+
+/-- a depth-first walk through the rank lists, started at the position the encoder's counters
+    point to, reads back the content of the sub-tree that was encoded there -/
+theorem cd_walk_encF (d : Nat) : ∀ (fs : List Fmt) (tsh : List Nat) (ish : Option (List Nat)) (pidx : Nat) (cnt : Cnt)
+    (a : List (Int × Tree Int Int d)) (pr po : List (List EFib)),
+    fs.length = d + 1 → wfB (κ := Int) (ν := Int) (d + 1) a = true → inEff (d + 1) fs tsh ish a = true →
+    cd_CntInv fs cnt → cd_lenOK cnt pr → pr.length = d + 1 → po.length = d + 1 →
+    walkM (zipApp pr (zipApp (encF d fs tsh ish pidx cnt a).fibs po)) (cnt.headD (0, 0)).1
+      = content (κ := Int) (ν := Int) (0 : Int) (d + 1) a := by
+  induction d with
+  | zero =>
+    intro fs tsh ish pidx cnt a pr po hfs hwf hin _ hok hpr hpo
+    exact cd_walk_encF_zero fs tsh ish pidx cnt a pr po hfs hwf hin hok hpr hpo
+  | succ d ih =>
+    intro fs tsh ish pidx cnt a pr po hfs hwf hin hinv hok hpr hpo
+    match fs, hfs with
+    | f :: g :: fs'', hfs' =>
+    match pr, hpr with
+    | p0 :: pr', hpr' =>
+    match po, hpo with
+    | q0 :: po', hpo' =>
+    have hfs'' : (g :: fs'').length = d + 1 := by simpa using hfs'
+    have hpr'' : pr'.length = d + 1 := by simpa using hpr'
+    have hpo'' : po'.length = d + 1 := by simpa using hpo'
+    have hfacts := encF_fibs_facts (d + 1) (f :: g :: fs'') tsh ish pidx cnt a hfs' hwf hin
+    have hosfs := (cd_encF_cnt (d + 1) (f :: g :: fs'') tsh ish pidx cnt a hfs' hinv).2.2
+    have hwf2 : (sortedB a && a.all (fun e => wfB (κ := Int) (ν := Int) (d + 1) e.2)) = true := hwf
+    rw [Bool.and_eq_true, List.all_eq_true] at hwf2
+    have hs : Sorted a := (sortedB_iff _).1 hwf2.1
+    have hin2 : (a.all fun e => decide (0 ≤ e.1) && decide (e.1 < ((dimOf tsh ish : Nat) : Int)) &&
+        inEff (d + 1) (g :: fs'') tsh.tail (ishNext f ish) e.2) = true := hin
+    rw [List.all_eq_true] at hin2
+    have hin' : ∀ e ∈ a, 0 ≤ e.1 ∧ e.1 < ((dimOf tsh ish : Nat) : Int) := by
+      intro e he
+      have := hin2 e he
+      simp only [Bool.and_eq_true, decide_eq_true_eq] at this
+      exact ⟨this.1.1, this.1.2⟩
+    obtain ⟨els, hels⟩ : ∃ els, els = elemsOf f (dimOf tsh ish) (emptyT d) (isEmpty (κ := Int) (0 : Int) (d + 1)) a := ⟨_, rfl⟩
+    have hQ : ∀ x ∈ els.map (·.2), wfB (κ := Int) (ν := Int) (d + 1) x = true ∧
+        inEff (d + 1) (g :: fs'') tsh.tail (ishNext f ish) x = true := by
+      intro x hx
+      obtain ⟨e, he, rfl⟩ := List.mem_map.1 hx
+      rw [hels] at he
+      rcases elemsOf_payload _ _ _ _ _ e he with h | ⟨e', he', h⟩
+      · rw [h]; constructor <;> rfl
+      · rw [← h]
+        refine ⟨hwf2.2 e' he', ?_⟩
+        have := hin2 e' he'
+        simp only [Bool.and_eq_true] at this
+        exact this.2
+    obtain ⟨K, hK⟩ : ∃ K, K = encKids (d + 1) (encF d (g :: fs'') tsh.tail (ishNext f ish) (cnt.headD (0, 0)).1)
+        (els.map (·.2)) cnt.tail 0 := ⟨_, rfl⟩
+    obtain ⟨F, hfibs, hnext, hc, hk0⟩ : ∃ F : EFib, (encF (d + 1) (f :: g :: fs'') tsh ish pidx cnt a).fibs = [F] :: K.fibs ∧
+        F.next = some g ∧ F.ecoords = els.map (·.1) ∧ F.kid0 = (cnt.tail.headD (0, 0)).1 :=
+      ⟨_, by rw [hK, hels]; exact encF_succ_fibs d f (g :: fs'') tsh ish pidx cnt a, rfl, by rw [hels], rfl⟩
+    rw [hfibs] at hfacts hosfs ⊢
+    have hF : FibFacts F := hfacts F (by simp)
+    have hse : F.scanElems = F.elemsSpec := scanElems_facts F hF (by
+      intro hC hU
+      exact hosfs F (by simp) (by rw [hC]; decide) (by rw [hU]; exact Option.some_ne_none _))
+    have hkids := cd_walk_kids (d + 1) (encF d (g :: fs'') tsh.tail (ishNext f ish) (cnt.headD (0, 0)).1)
+      (fun x => content (κ := Int) (ν := Int) (0 : Int) (d + 1) x)
+      (fun x => wfB (κ := Int) (ν := Int) (d + 1) x = true ∧ inEff (d + 1) (g :: fs'') tsh.tail (ishNext f ish) x = true)
+      (cd_CntInv (g :: fs''))
+      (fun c x => cd_encF_fibs_len d _ _ _ _ c x)
+      (fun c x hc => ⟨(cd_encF_cnt d (g :: fs'') tsh.tail (ishNext f ish) _ c x hfs'' hc).1,
+                      (cd_encF_cnt d (g :: fs'') tsh.tail (ishNext f ish) _ c x hfs'' hc).2.1⟩)
+      (fun c x p hp ho => cd_encF_lenOK d _ _ _ _ c x p hp ho)
+      (fun x hx c p q hp hq ho hc => ih (g :: fs'') tsh.tail (ishNext f ish) _ c x p q hfs'' hx.1 hx.2 hc ho hp hq)
+      (els.map (·.2)) hQ cnt.tail 0 pr' po' hpr'' hpo'' hok.2 hinv.2
+    rw [← hK] at hkids
+    simp only [zipApp_cons, walkM]
+    rw [hok.1, cd_getD_mid, hse]
+    simp only [EFib.elemsSpec, hnext, hc, hk0, List.flatMap_map]
+    have hcont : els.flatMap (fun e => (content (κ := Int) (ν := Int) (0 : Int) (d + 1) e.2).map (Codec.pre e.1))
+        = content (κ := Int) (ν := Int) (0 : Int) (d + 1 + 1) a := by
+      rw [hels]
+      show _ = a.flatMap (fun e => (content (κ := Int) (ν := Int) (0 : Int) (d + 1) e.2).map (Codec.pre e.1))
+      exact flatMap_elemsOf (fun c (x : Tree Int Int (d + 1)) => (content (κ := Int) (ν := Int) (0 : Int) (d + 1) x).map (Codec.pre c))
+        f (dimOf tsh ish) (emptyT d) _ (by intro c; rfl)
+        (by intro c x hx; rw [content_of_isEmpty (d + 1) x hx]; rfl) a hs hin'
+    rw [← hcont]
+    have := cd_zipIdx_flatMap els
+      (fun j => walkM (zipApp pr' (zipApp K.fibs po')) ((cnt.tail.headD (0, 0)).1 + j))
+      (fun x => content (κ := Int) (ν := Int) (0 : Int) (d + 1) x) 0
+      (by
+        intro j hj
+        have := hkids j (by simpa using hj)
+        simp only [Nat.zero_add]
+        rw [this]; simp)
+    rw [← this]
+    simp only [Int.toNat_natCast]
+    rfl
+
+
+theorem cd_lenOK_replicate : ∀ (n m : Nat), cd_lenOK (List.replicate n (0, 0)) (List.replicate m [])
+  | _, 0 => trivial
+  | n, m + 1 => by
+    refine ⟨?_, ?_⟩
+    · cases n <;> rfl
+    · cases n with
+      | zero => exact cd_lenOK_replicate 0 m
+      | succ n => exact cd_lenOK_replicate n m
+
+
 end Codec
 end Ft
